@@ -12,6 +12,7 @@ func init() {
 	}})
 	register(&PropertyRule{ID: "C02", Explain: "structural necessary conditions of C02 (election safety): see DESIGN.md §5 C02", Run: func(c *Check) {
 		gVote(c)
+		gTermGate(c)
 		c05MustSync(c) // what is promised must be flagged for a synchronous write
 		gElect(c)
 		gQuorumJoint(c)
@@ -62,6 +63,7 @@ func init() {
 	}})
 	register(&PropertyRule{ID: "C01", Explain: "node-local structural necessary conditions of C01 (state-machine safety): see DESIGN.md §5 C01", Run: func(c *Check) {
 		gTrunc(c)
+		gTermGate(c)
 		c05MustSync(c) // what is promised must be flagged for a synchronous write
 		gCommitMono(c)
 		gApply(c)
@@ -82,6 +84,7 @@ func init() {
 	}})
 	register(&PropertyRule{ID: "C04", Explain: "structural necessary conditions of C04 (leader completeness): see DESIGN.md §5 C04", Run: func(c *Check) {
 		gVote(c)
+		gTermGate(c)
 		gCommitLeader(c)
 		c06Follower(c)
 		gQuorumJoint(c)
@@ -99,6 +102,7 @@ func init() {
 	}})
 	register(&PropertyRule{ID: "C17", Explain: "structural necessary conditions of C17 (PreVote / CheckQuorum): see DESIGN.md §5 C17", Run: func(c *Check) {
 		c17Disruption(c)
+		gTermGate(c)
 		gElect(c)
 	}})
 	register(&PropertyRule{ID: "C16", Explain: "structural necessary conditions of C16 (flow control and size limits): see DESIGN.md §5 C16", Run: func(c *Check) {
